@@ -627,7 +627,52 @@ func c15spzRead(stream []byte) string {
 	})
 }
 
+// Header.Validate alone and the error KIND of header-only streams, on the boundary of every guard
+func (c *Ctx) runC15spzValidate() {
+	magic := uint32(0x5053474e)
+	type hv struct {
+		magic, ver, np uint32
+		deg            uint8
+	}
+	cases := []hv{}
+	for _, np := range []uint32{0, 1, 9999999, 10000000, 10000001, 20000000, 4294967295} {
+		for _, ver := range []uint32{0, 1, 2, 3} {
+			for _, deg := range []uint8{0, 3, 4, 255} {
+				cases = append(cases, hv{magic, ver, np, deg})
+			}
+		}
+	}
+	cases = append(cases, hv{magic - 1, 2, 1, 0}, hv{magic + 1, 2, 1, 0}, hv{0, 2, 1, 0})
+	for _, h := range cases {
+		ans := "ok"
+		if (spz.Header{Magic: h.magic, Version: h.ver, NumPoints: h.np, ShDegree: h.deg}).Validate() != nil {
+			ans = "err"
+		}
+		c.Emit("c15.spz.validate", fmt.Sprintf("%d %d %d %d", h.magic, h.ver, h.np, h.deg), ans)
+	}
+	// header-only streams through spz.Read: a header within the limit fails with a SHORT READ, one beyond it is INVALID
+	for _, np := range []uint32{1, 9999999, 10000000, 10000001} {
+		for _, ver := range []uint32{1, 2} {
+			stream := c15spzEncode(magic, ver, np, 1, 12, 0, 0, nil)
+			ans := Guard(func() string {
+				_, err := spz.Read(bytes.NewReader(c15gzip(stream)))
+				switch {
+				case err == nil:
+					return "ok"
+				case errors.Is(err, io.EOF) || errors.Is(err, io.ErrUnexpectedEOF):
+					return "short"
+				default:
+					return "invalid"
+				}
+			})
+			c.Note(fmt.Sprintf("c15.spz.header-only.%d", np))
+			c.Emit("c15.spz.errkind", c15hex(stream), ans)
+		}
+	}
+}
+
 func (c *Ctx) runC15spz() {
+	c.runC15spzValidate()
 	fbs := []uint8{0, 1, 3, 8, 12, 16, 20, 23, 24, 31, 40, 62, 63, 64, 200}
 	for k := 0; k < c.N; k++ {
 		version := uint32(1 + k%2)
